@@ -5,6 +5,7 @@
 P=$1; PATCH=$2; EX=$3; shift 3; IDS=${@:-$P}
 WT=${WTDIR:-/tmp/wt-$P}; export CARGO_TARGET_DIR=$WT/target
 FEAT="--features executor,block_on,signals,stream,futures-io"
+if [ -z "$SKIP_WT" ]; then
 cd $WT || exit 9
 git checkout -q -- src; git apply $PATCH || { echo "APPLY-FAILED"; exit 9; }
 T=$(cargo test --workspace --no-fail-fast --offline 2>&1 | grep -E '^test result' | head -1)
@@ -14,6 +15,8 @@ echo "demo-with-change rc=$RC1"
 git checkout -q -- src
 if [ -f examples/$EX.rs ]; then timeout 300 cargo run -q --offline $FEAT --example $EX >/tmp/seedcheck.out 2>&1; RC0=$?; else timeout 300 cargo test -q --offline $FEAT --test $EX >/tmp/seedcheck.out 2>&1; RC0=$?; fi
 echo "demo-without-change rc=$RC0"
+fi
+[ -n "$SKIP_REPO" ] && exit 0
 cd /repo && git apply $PATCH || { echo "APPLY-TO-REPO-FAILED"; git -C /repo checkout -- .; exit 9; }
 cd /verif
 for id in $IDS; do
